@@ -132,7 +132,12 @@ impl Simd for Simd128u {
     }
 
     #[inline(always)]
-    fn gt(&self, _rhs: &Self) -> Self::Mask {
-        todo!()
+    fn gt(&self, rhs: &Self) -> Self::Mask {
+        // unsigned: a > b  <=>  !(a <= b)
+        unsafe {
+            let max = _mm_max_epu8(self.0, rhs.0);
+            let le = _mm_cmpeq_epi8(max, rhs.0);
+            Mask128(_mm_xor_si128(le, _mm_set1_epi8(-1)))
+        }
     }
 }
